@@ -49,7 +49,7 @@ class C41(core.Prop):
             red = "sdpor"       # known finding of C38: odpor does not terminate there
         res = mcrun.run(sc, red, cpu=40, wall=1200)
         oc.evals = 1
-        if res.r.wall_exceeded:
+        if res.r.wall_exceeded or res.load_failure:
             raise core.Inconclusive()
         if res.no_transition:
             return oc
